@@ -464,4 +464,35 @@ async def zero_tests(mpc, ctx):
     await mpc.shutdown()
 
 
+@program('mutate_after_call', ms=(2, 3), expect=lambda m: [('r', [[4, 5], 9, 20, 23, [5, 7], [4, 10], [4, 5], [4, 5], 5, [4, 5]])])
+async def mutate_after_call(mpc, ctx):
+    """The caller overwrites its argument lists right after each call (before yielding to the loop): every API
+    function that takes a list works on its own copy, so results must not change."""
+    await mpc.start()
+    secint = mpc.SecInt(8)
+    junk = secint(-99)
+
+    def fresh():
+        return [secint(4), secint(5)]
+    res = []
+    buf = fresh()
+    y = mpc.input(buf, senders=0)
+    buf[0] = buf[1] = junk
+    x = fresh()
+    f = mpc.output(x)
+    x[0] = x[1] = junk
+    res.append(await mpc.output(y))
+    x = fresh(); r = mpc.sum(x); x[0] = x[1] = junk; res.append(await mpc.output(r))
+    x = fresh(); r = mpc.prod(x); x[0] = x[1] = junk; res.append(await mpc.output(r))
+    x = fresh(); z = [secint(2), secint(3)]; r = mpc.in_prod(x, z); x[0] = z[1] = junk; res.append(await mpc.output(r))
+    x = fresh(); z = [secint(1), secint(2)]; r = mpc.vector_add(x, z); x[1] = z[0] = junk; res.append(await mpc.output(r))
+    x = fresh(); z = [secint(1), secint(2)]; r = mpc.schur_prod(x, z); x[0] = z[1] = junk; res.append(await mpc.output(r))
+    x = fresh(); z = [secint(7), secint(8)]; r = mpc.if_else(secint(1), x, z); x[0] = z[0] = junk; res.append(await mpc.output(r))
+    x = [secint(5), secint(4)]; r = mpc.sorted(x); x[0] = junk; res.append(await mpc.output(r))
+    x = fresh(); r = mpc.max(x); x[1] = junk; res.append(await mpc.output(r))
+    res.append(await f)
+    ctx.out('r', res)
+    await mpc.shutdown()
+
+
 MICRO = ('mod_race', 'reverse_await', 'mul_cmp')
